@@ -20,6 +20,7 @@
 #include <ucontext.h>
 #include <unistd.h>
 #include <sys/time.h>
+#include <sys/mman.h>
 #include "co_core.h"
 
 #define NSLOT 32
@@ -174,7 +175,8 @@ static void invariants(const char *where, int in_isr)
 static volatile int TfOn;
 static inline void tf_set(void)   { __asm__ volatile("pushfq\n\torq $0x100,(%%rsp)\n\tpopfq" ::: "cc", "memory"); }
 static inline void tf_clear(void) { __asm__ volatile("pushfq\n\tandq $~0x100,(%%rsp)\n\tpopfq" ::: "cc", "memory"); }
-#define TASKCALL(stmt) do { if (TfOn) tf_set(); stmt; if (TfOn) tf_clear(); } while (0)
+static volatile int BpMode, InTask;     /* BpMode: the interrupt position is reached with a breakpoint instead of single-stepping */
+#define TASKCALL(stmt) do { int prev_ = InTask; InTask = 1; if (TfOn && !BpMode) tf_set(); stmt; if (TfOn && !BpMode) tf_clear(); InTask = prev_; } while (0)
 
 static void cb(void *arg);
 static int InProcess;
@@ -223,15 +225,17 @@ static void op_delete(int id)
 }
 static void cb(void *arg)
 {
-    if (TfOn) tf_clear();
+    int prevtask_ = InTask; InTask = 0;
+    if (TfOn && !BpMode) tf_clear();
     int k = (int)((int *)arg - Slots);
     MAct *a = &S->a[k];
     NCb++;
     tr(T_CB, k, (int)S->clock, a->id, 0);
-    if (!a->live) { VIOL("run/not-live", "callback of slot %d ran although its action is not live (deleted or already finished)", k); if (TfOn) tf_set(); return; }
+    if (!a->live) { VIOL("run/not-live", "callback of slot %d ran although its action is not live (deleted or already finished)", k); if (TfOn && !BpMode) tf_set(); InTask = prevtask_; return; }
     if (S->exact ? (a->due != S->clock) : (a->due > S->clock)) {
         VIOL(a->due > S->clock ? "run/early-or-twice" : "run/late", "action id %d ran at tick %u, due at %u (period %u)", a->id, S->clock, a->due, a->period);
-        if (TfOn) tf_set();
+        if (TfOn && !BpMode) tf_set();
+        InTask = prevtask_;
         return;
     }
     if (a->period == 0) a->live = 0;
@@ -239,7 +243,8 @@ static void cb(void *arg)
     int beh = a->beh;
     if (beh == 1) { NCbCreate++; (void)op_create(2, 0, 0); }
     else if (beh == 2) { NCbDelete++; int t = (k + 1) % NSLOT; op_delete(S->a[t].live ? S->a[t].id : (a->id + 1) % (S->pool + 1)); }
-    if (TfOn) tf_set();
+    if (TfOn && !BpMode) tf_set();
+    InTask = prevtask_;
 }
 static void check_pass_complete(uint32_t start_clock, const char *what)
 {
@@ -389,19 +394,43 @@ static void conv(unsigned long n)
 extern char __start_costk[] __attribute__((weak)), __stop_costk[] __attribute__((weak));
 static volatile long TfCount, TfTarget, TfTarget2;
 static unsigned long PcSeen[4096]; static int NPcSeen;
+#define PCTRACE 16384
+static uintptr_t PcTrace[PCTRACE];                 /* program counters of the counting pass, in execution order */
+static uintptr_t BpPc; static uint8_t BpOrig; static volatile long BpOcc, BpHits; static volatile int BpArmed, BpStep;
+static unsigned long BpNeverHit;
+static void pc_seen(uintptr_t pc)
+{
+    unsigned long off = (unsigned long)(pc - (uintptr_t)__start_costk);
+    for (int i = 0; i < NPcSeen; i++) if (PcSeen[i] == off) return;
+    if (NPcSeen < 4096) PcSeen[NPcSeen++] = off;
+}
 static void on_trap(int sig, siginfo_t *si, void *ucv)
 {
     (void)sig; (void)si;
     ucontext_t *uc = ucv;
-    uintptr_t pc = (uintptr_t)uc->uc_mcontext.gregs[REG_RIP];
+    greg_t *g = uc->uc_mcontext.gregs;
+    if (BpMode) {
+        if (BpStep) {                              /* single step over a non-target occurrence: re-insert the breakpoint */
+            BpStep = 0; g[REG_EFL] &= ~0x100L;
+            if (BpArmed) *(volatile uint8_t *)BpPc = 0xCC;
+            return;
+        }
+        uintptr_t pc = (uintptr_t)g[REG_RIP] - 1;
+        if (!BpArmed || pc != BpPc) return;
+        *(volatile uint8_t *)BpPc = BpOrig;        /* execute the original instruction next */
+        g[REG_RIP] = (greg_t)pc;
+        if (InTask && !InIsr) {
+            if (BpHits == BpOcc) { BpArmed = 0; pc_seen(pc); isr(); return; }
+            BpHits++;
+        }
+        BpStep = 1; g[REG_EFL] |= 0x100L;
+        return;
+    }
+    uintptr_t pc = (uintptr_t)g[REG_RIP];
     if (!TfOn || InIsr) return;
     if (pc >= (uintptr_t)__start_costk && pc < (uintptr_t)__stop_costk) {
-        if (TfCount == TfTarget || TfCount == TfTarget2) {
-            unsigned long off = (unsigned long)(pc - (uintptr_t)__start_costk);
-            int f = 0; for (int i = 0; i < NPcSeen; i++) if (PcSeen[i] == off) { f = 1; break; }
-            if (!f && NPcSeen < 4096) PcSeen[NPcSeen++] = off;
-            isr();
-        }
+        if (TfCount == TfTarget || TfCount == TfTarget2) { pc_seen(pc); isr(); }
+        if (TfCount < PCTRACE) PcTrace[TfCount] = pc;
         TfCount++;
     }
 }
@@ -450,6 +479,61 @@ static void c08plain(unsigned long nseq, int maxops)
     }
     printf("stat deferred_sequences %lu\n", nseq);
 }
+static void run_op(const OP *o)
+{
+    if (o->kind == 0) (void)op_create(o->s, o->c, o->beh);
+    else if (o->kind == 1) op_delete(o->id);
+    else if (o->kind == 2) op_tick();
+    else if (o->kind == 3) op_service();
+    else op_process();
+}
+static void c08fast(unsigned long nseq, int maxops)
+{
+    /* like c08, but the chosen instruction is reached with a breakpoint (one or a few traps) instead of single-stepping the whole call */
+    if (__start_costk == 0) { printf("viol harness/no-costk build without renamed text section\n"); return; }
+    struct sigaction sa; memset(&sa, 0, sizeof sa); sa.sa_sigaction = on_trap; sa.sa_flags = SA_SIGINFO; sigaction(SIGTRAP, &sa, NULL);
+    uintptr_t lo = (uintptr_t)__start_costk & ~(uintptr_t)4095, hi = ((uintptr_t)__stop_costk + 4095) & ~(uintptr_t)4095;
+    if (mprotect((void *)lo, hi - lo, PROT_READ | PROT_WRITE | PROT_EXEC) != 0) { printf("viol harness/mprotect cannot make the stack text writable\n"); return; }
+    S = malloc(sizeof(SYS)); SYS *snap = malloc(sizeof(SYS)); SYS *base = malloc(sizeof(SYS));
+    OP seq[64];
+    unsigned long positions = 0;
+    for (unsigned long q = 0; q < nseq; q++) {
+        int pool = 1 + (int)(rnd() % 4);
+        int n = 4 + (int)(rnd() % (uint32_t)(maxops - 3));
+        gen_seq(seq, n, pool);
+        sys_init(pool, 0);
+        snap_save(base);
+        for (int j = 0; j < n; j++) {
+            snap_save(snap);
+            Failed = 0; TrN = 0;
+            BpMode = 0;
+            long N = run_preempted(&seq[j], -1, -1);          /* counting pass (single-stepped), fills PcTrace */
+            if (N > PCTRACE) N = PCTRACE;
+            for (long k = 0; k < N; k++) {
+                long occ = 0; for (long i = 0; i < k; i++) if (PcTrace[i] == PcTrace[k]) occ++;
+                snap_load(snap); IrqMasked = 0; IrqPending = 0; LockDepth = 0; InProcess = 0; InIsr = 0; InTask = 0;
+                Failed = 0; TrN = 0; tr(T_HDR, pool, (int)q, j, (int)k);
+                BpPc = PcTrace[k]; BpOrig = *(volatile uint8_t *)BpPc; BpOcc = occ; BpHits = 0; BpStep = 0; BpArmed = 1; BpMode = 1;
+                *(volatile uint8_t *)BpPc = 0xCC;
+                TfOn = 1;
+                run_op(&seq[j]);
+                TfOn = 0;
+                if (BpArmed) { *(volatile uint8_t *)BpPc = BpOrig; BpArmed = 0; BpNeverHit++; }
+                BpMode = 0;
+                NExec++; positions++;
+                if (!Failed) invariants("after-preempted-op", 0);
+                for (int i = j + 1; i < n && !Failed; i++) apply(&seq[i]);
+                if (!Failed) drain();
+            }
+            snap_load(snap); IrqMasked = 0; IrqPending = 0; LockDepth = 0; InProcess = 0; InIsr = 0; InTask = 0;
+            Failed = 0; TrN = 0;
+            apply(&seq[j]);
+            if (Failed) break;
+        }
+    }
+    printf("stat preempt_executions %lu\nstat preempt_distinct_pcs %d\nstat breakpoint_never_hit %lu\n", positions, NPcSeen, BpNeverHit);
+    if (NPcSeen > 0) printf("sample first preemption offsets in stack text: %lx %lx %lx\n", PcSeen[0], PcSeen[NPcSeen / 2], PcSeen[NPcSeen - 1]);
+}
 static void c08(unsigned long nseq, int maxops)
 {
     if (__start_costk == 0) { printf("viol harness/no-costk build without renamed text section\n"); return; }
@@ -474,7 +558,7 @@ static void c08(unsigned long nseq, int maxops)
             Failed = 0; TrN = 0;
             long N = run_preempted(&seq[j], -1, -1);       /* count instructions */
             for (long k = 0; k < N; k++) {
-                snap_load(snap); IrqMasked = 0; IrqPending = 0; LockDepth = 0; InProcess = 0; InIsr = 0;
+                snap_load(snap); IrqMasked = 0; IrqPending = 0; LockDepth = 0; InProcess = 0; InIsr = 0; InTask = 0;
                 Failed = 0; TrN = 0; tr(T_HDR, pool, (int)q, j, (int)k);
                 long k2 = -1;
                 if (rnd() % 8 == 0) { k2 = k + 1 + (long)(rnd() % 40); dbl++; }
@@ -485,7 +569,7 @@ static void c08(unsigned long nseq, int maxops)
                 if (!Failed) drain();
             }
             /* continue the prefix without preemption */
-            snap_load(snap); IrqMasked = 0; IrqPending = 0; LockDepth = 0; InProcess = 0; InIsr = 0;
+            snap_load(snap); IrqMasked = 0; IrqPending = 0; LockDepth = 0; InProcess = 0; InIsr = 0; InTask = 0;
             Failed = 0; TrN = 0;
             apply(&seq[j]);
             if (Failed) break;
@@ -505,6 +589,7 @@ int main(int argc, char **argv)
     else if (!strcmp(mode, "c07rand")) { Rng = 0x9E3779B97F4A7C15ull ^ (strtoull(argv[2], 0, 0) * 0x2545F4914F6CDD1Dull); c07rand(strtoul(argv[3], 0, 0), atoi(argv[4])); }
     else if (!strcmp(mode, "conv")) { Rng = 0x9E3779B97F4A7C15ull ^ (strtoull(argv[2], 0, 0) * 0x2545F4914F6CDD1Dull); conv(strtoul(argv[3], 0, 0)); }
     else if (!strcmp(mode, "c08plain")) { Rng = 0x9E3779B97F4A7C15ull ^ (strtoull(argv[2], 0, 0) * 0x2545F4914F6CDD1Dull); c08plain(strtoul(argv[3], 0, 0), atoi(argv[4])); }
+    else if (!strcmp(mode, "c08fast")) { Rng = 0x9E3779B97F4A7C15ull ^ (strtoull(argv[2], 0, 0) * 0x2545F4914F6CDD1Dull); c08fast(strtoul(argv[3], 0, 0), atoi(argv[4])); }
     else if (!strcmp(mode, "c08")) { Rng = 0x9E3779B97F4A7C15ull ^ (strtoull(argv[2], 0, 0) * 0x2545F4914F6CDD1Dull); c08(strtoul(argv[3], 0, 0), atoi(argv[4])); }
     else { printf("bad mode\n"); return 3; }
     printf("stat executions %lu\nstat callbacks %lu\nstat create_ok %lu\nstat create_refused %lu\nstat delete_ok %lu\nstat delete_refused %lu\nstat ticks %lu\n"
